@@ -242,6 +242,13 @@ def _ctx_table():
                                        {'k': 'file', 's': {'c': 'str', 's': S('txt', q='s'), 't': _ref('Z')}})
     c['tt-run-arg'] = lambda x: setup(_def('text-transformer', 'Z', {'c': 'run', 'p': _probe('q1', [S(R(x))])}),
                                       {'k': 'file', 's': {'c': 'str', 's': S('txt', q='s'), 't': _ref('Z')}})
+    pg = _def('program', 'PG', _probe('p3', [S('g')]))
+    c['symref-arg'] = lambda x: setup(pg, {'k': 'run', 'p': symref('PG', S('a'), S(R(x)))})
+    c['symref-arg-frag'] = lambda x: setup(pg, {'k': 'run', 'p': symref('PG', S('a ', R(x), q='s'))})
+    c['symref-stdin'] = lambda x: setup(pg, {'k': 'run', 'p': dict(symref('PG'), **{'in': {'ref': x, 't': None}})})
+    c['symref-stdin-str'] = lambda x: setup(pg, {'k': 'run', 'p': dict(symref('PG'), **{'in': ts_str('s', R(x))})})
+    c['symref-tt'] = lambda x: setup(pg, {'k': 'run', 'p': dict(symref('PG'), t=_ref(x))})
+    c['act-symref-arg'] = lambda x: ([pg], 'setup', symref('PG', S(R(x)), S('z')))
     c['fm-run-prog'] = lambda x: setup(_def('file-matcher', 'Z', {'c': 'run', 'p': symref(x)}))
     c['fm-run-arg'] = lambda x: setup(_def('file-matcher', 'Z', {'c': 'run', 'p': _probe('q1', [S('a', R(x), q='s')])}))
     return c
